@@ -237,21 +237,6 @@ def attempt(f):
         return "other:" + type(e).__name__, None
 
 
-def has_empty_middle(op):
-    keys = []
-    if op[0] in ("select", "delete"):
-        keys = [op[1]]
-    elif op[0] in ("chain", "vis", "fold", "title"):
-        keys = list(op[1])
-    for k in keys:
-        parts = spec_split(k)
-        if k and parts[-1] and not all(parts):
-            return True
-    if op[0] == "dellist" and op[1] and op[1][-1] and not all(op[1]):
-        return True
-    return False
-
-
 def check_sequence(ops, new_card, apply_op, build=None, model_op=None):
     """Replays ops on a real card and on the reference; returns None or the first step where they differ.
     model_op must come from the module whose apply_op is used (it reads the HTML text recorded by that module's wrapper)."""
@@ -270,9 +255,6 @@ def check_sequence(ops, new_card, apply_op, build=None, model_op=None):
             return {"step": i, "kind": kind, "op": op, "detail": detail, "ops": ops[:i + 1]}
 
         if want_cls != got_cls:
-            if want_cls == "KeyError" and got_cls == "ok" and has_empty_middle(op):
-                return fail("empty-middle-name", f"{op[0]} of a path with an empty name in the middle succeeds; "
-                                                 "the property asks for KeyError on an empty name")
             return fail("outcome", f"implementation {got_cls}, property requires {want_cls}")
         if want is not None and got is not None and want.shallow() != impl_shallow(got):
             return fail("select", f"select returned {impl_shallow(got)!r}, last written there: {want.shallow()!r}")
